@@ -356,6 +356,15 @@ def drive(mem: Member, tol: float, mode: str, rng, budget: int, stop_at_done=Tru
     return out
 
 
+def done_criterion(L) -> bool:
+    """The documented stopping rule, from public attributes: the error is 0, or below the
+    RELATIVE tolerance, or only the removed intervals keep it above, or nothing is left."""
+    err, igral = float(L.err), float(L.igral)
+    exc = sum(float(i.err) for i in L.approximating_intervals if i.removed)
+    lim = abs(igral) * L.tol
+    return bool(err == 0 or err < lim or (err - exc < lim < exc) or not L.ivals)
+
+
 def l1_scale(L) -> float:
     """sum over the approximating intervals of width * max |finite node value|: an upper
     estimate of int |f|, the scale of the rounding error of the sum of contributions."""
@@ -446,8 +455,21 @@ class ExactKernel:
         return [sum(T[i][k] * cp[k] for k in range(n)) for i in range(len(T))]
 
 
+def fsqrt(fr: Fraction) -> float:
+    """sqrt of an exact rational as a float, without intermediate under/overflow."""
+    if fr <= 0:
+        return 0.0
+    e = fr.numerator.bit_length() - fr.denominator.bit_length()
+    k = e // 2
+    scaled = fr / Fraction(4) ** k if k >= 0 else fr * Fraction(4) ** (-k)
+    try:
+        return math.ldexp(math.sqrt(float(scaled)), k)
+    except OverflowError:
+        return math.inf
+
+
 def fnorm(v):
-    return math.sqrt(float(sum(Fraction(x) * Fraction(x) if isinstance(x, Fraction) else Fraction(float(x)) ** 2 for x in v)))
+    return fsqrt(sum((x if isinstance(x, Fraction) else Fraction(float(x))) ** 2 for x in v))
 
 
 # orthonormal Legendre basis, from the definition (independent of the code's constants)
@@ -505,16 +527,19 @@ def reference_trajectory(mem: Member, tol: float, max_loops: int):
     a4 = algorithm_4_module()
     out, status = [], "ok"
     last = None
-    for k in range(1, max_loops + 1):
+    for k in range(1, max_loops + 2):
         try:
             ig, er, n, ivs = a4.algorithm_4(mem.fvec, mem.a, mem.b, tol, N_loops=k)
         except a4.DivergentIntegralError as e:
             status = "divergent"
-            out.append((e.nr_points, math.inf, None, 0))
+            if k <= max_loops:
+                out.append((e.nr_points, math.inf, None, 0))
             break
         st = (int(n), float(ig), float(er), len(ivs))
         if st == last:               # the reference returned before using all its loops: finished
             status = "finished"
+            break
+        if k > max_loops:            # one loop beyond the cap, only to see whether the last state was final
             break
         out.append(st)
         last = st
@@ -543,9 +568,11 @@ def learner_trajectory(mem: Member, tol: float, n_distinct: int, cap: int):
                 L.tell(x, mem.f(x))
                 n += 1
                 ig = float(L.igral) if L.approximating_intervals else math.nan
-                traj.append((n, dups, ig, float(L.err), len(L._stack)))
+                traj.append((n, dups, ig, float(L.err), bool(L.done())))
     except il.DivergentIntegralError:
         status = "divergent"
     except RuntimeError:
         status = "noimprove"
+    except INTERNAL_ERRORS:
+        status = "internal"
     return traj, status, L
